@@ -7,3 +7,57 @@ add("C11", "exhaustive input enumeration (2^32 f32 patterns) + bounded-depth sta
 add("C12", "explicit-state enumeration of all 2^24 adjacent phase pairs on the real code",
     "All 2^24 (phase, phase+1) pairs including the wrap, then all start phases for a menu of larger increments, compared against the slope bound of the statement.",
     "Larger increments are a menu of 9 values (thorough), not all 2^24.", "4 (LFO)")
+add("C01", "complete phase walks (2^24 positions per phase) + bounded-depth BFS of event histories on the real code",
+    "Every tick of complete walks through attack, decay and release for 14 start/sustain levels (thorough: every one of the 2^24 accumulator positions per phase at the smallest in-range increment; quick: complete walks at 10 increments) and every transition of a bounded-depth BFS over gate/tick/set_input histories is judged for range, exact end levels, monotonicity between events and 0.5% fidelity to the documented RC curve.",
+    "Sample rates, times and levels are menus, not all f32 combinations; histories depth-bounded (9/13 operations with 19 operations, 16/22 with 7). Phase position via the verif_phase_bits hook.", "4 (ADSR)")
+add("C02", "exhaustive configuration sweep (every integer sample rate) + bounded-depth BFS against a reference state machine",
+    "Every integer sample rate in [100, 192000] (quick: every 7th) x 7 times incl. sub-sample products, plus a 19 x 24 named grid with clamped/NaN/inf times, each run through all three timed phases with a watchdog against the statement's duration bounds; BFS over event histories against a five-state reference machine that accumulates per-tick ideal progress (mid-phase time changes).",
+    "Times are a menu per rate; histories depth-bounded. Phase read via the verif_state hook (cross-checked by plateau levels in C01).", "4 (ADSR)")
+add("C03", "complete phase walks (all adjacent accumulator positions) + bounded-depth BFS with a per-tick slope oracle",
+    "Same walks and histories as C01; on every tick |delta| is compared with slope x span x phase fraction + |delta sustain|; gate and parameter events must not move the output. Thorough compares every adjacent pair of positions at the slowest legal envelope.",
+    "As C01.", "4 (ADSR)")
+add("C04", "explicit-state BFS to fixpoint over message histories of the real receiver vs reference model",
+    "BFS to fixpoint (no depth cap) over note-on / both note-off spellings / All-Notes-Off / foreign-channel / priority / retrigger operations with up to K outstanding notes (K=4..32 by alphabet), each message delivered byte by byte to the real receiver; gate, note and velocity compared with a Vec-of-outstanding-notes model after every message; stateright re-explores the same machine in the thorough tier.",
+    "Note alphabets of 1-4 note numbers; the 32-note capacity reached with one note number.", "4 (MIDI)")
+add("C05", "explicit-state BFS to fixpoint with edge polls as operations",
+    "As C04 plus rising_gate()/falling_gate() as ordinary operations, so polls occur at every position of every history; each poll result must equal a reference latch.",
+    "As C04.", "4 (MIDI)")
+add("C06", "byte-level BFS to fixpoint + exhaustive 1- and 2-byte deviations of a stream catalogue, twin-receiver oracle",
+    "A receiver fed raw bytes is compared after every byte with a second real receiver fed only the complete supported messages produced by an independent MIDI 1.0 decoder. Fixpoint over a 24-35 byte alphabet; every byte value inserted at every position (and every deleted byte) of 38 base streams on all 16 channels; thorough: every byte pair at every two positions.",
+    "The harness decoder is the framing reference. Not all 256^n streams.", "4 (MIDI)")
+add("C07", "exhaustive scale-pair x input-grid sweep + BFS to fixpoint over edit/convert histories",
+    "All ordered pairs of scales (thorough: 4095^2; quick: 1- and 2-note toggles) x 150 inputs with a real scale edit between two conversions; BFS to fixpoint over allow/forbid/convert; every reported note must be allowed per is_allowed and per the model mask; the keep-last-note rule is checked for every forbid.",
+    "Inputs are a 150-value grid across octaves 0, 1, 2, 9 and the range ends.", "4 (Quantizer)")
+add("C08", "exhaustive sweep: 4095 scales x 10,000,001 microvolt inputs vs exact integer reference",
+    "Thorough: every scale x every microvolt in [0, 10] V on a fresh real quantizer against the nearest-allowed-note rule in exact 1/3-uV integers with the 10 uV tie window. Quick: +-12 uV around all 241 half-semitone boundaries plus a stride, all scales.",
+    "Inputs are f32 values nearest to k uV.", "4 (Quantizer)")
+add("C09", "exhaustive previous-note x second-input x scale-edit sweep, differential against a fresh quantizer, + BFS to fixpoint",
+    "For every scale (thorough: all 4095) and every previous conversion, 28 second inputs around the widened bucket with 4 kinds of scale edit: inside the window the note is kept, otherwise the record equals a fresh real quantizer's bit for bit; ramps and boundary noise; BFS to fixpoint over histories.",
+    "Window edges within 1 uV may go either way.", "4 (Quantizer)")
+add("C10", "explicit-state enumeration of all 2^24 oscillator phases on the real code",
+    "Every one of the 2^24 phase-counter states of the real Lfo is reached through tick() and all five waveforms are compared with exact references (sine within 0.0125); read-order and history independence are checked on a sub-lattice and by bounded exploration of call histories. Complete for the property's own quantifier.",
+    "Trusted: the harness's f64 reference formulas; phase is read back from the public up-saw output. x86-64 only.", "4 (LFO)")
+add("C13", "exhaustive enumeration of all operation sequences to a depth + all <=2-deviation set_time schedules",
+    "All 17^d operation sequences (d = 4-6) at three sample rates, all placements of up to two set_time calls over a 40-sample glide for all time triples, and 8*t*fs holds; after every sample the output must stay in the input range, approach a held input monotonically and settle (f32 allowance A).",
+    "Input and time menus; depth-bounded; allowance A = 2 ulp(M)/(1-p).", "4 (Glide)")
+add("C14", "exhaustive sweep of a sample-rate x time plane + all short set_time schedules vs dead-band model",
+    "Step responses of the real processor for 6 rates x ~25 times x 6 steps against the 99.5% / 40-55% bounds, sub-2-sample times, >10 s vs 10 s, and all set_time schedules of length <= 4 over a 9-time menu judged against the set of times the dead-band rule allows.",
+    "Geometric time grid (x1.5), not all times.", "4 (Glide)")
+add("C15", "explicit-state BFS to fixpoint over sample/poll histories at six buffer capacities",
+    "BFS to fixpoint on the real controller (rebuilt from its history for every successor) with in-range, out-of-range and near-boundary samples and both edge polls as operations, against a run-length model calibrated on a fresh controller; up to 2-3 reported presses per history; stateright cross-check.",
+    "Six instantiated capacities (2..171); one in-range level at the larger ones.", "4 (Ribbon)")
+add("C16", "explicit-state BFS with full buffer contents in the state + differential fresh-controller oracle",
+    "BFS over 2-3 in-range levels with buffer contents in the key (fixpoint at capacities 2, 6, 9; bounded at 18): on every pressed state value() is compared with the f64 corrected mean, with min/max, with a fresh real controller fed only the contributing samples (bit-exact), and for monotonicity in each contributor; unchanged while lifted.",
+    "Levels are 2-3 values; three resistor triples.", "4 (Ribbon)")
+add("C17", "bounded exploration with extreme-argument alphabets + complete finite input spaces under overflow checks",
+    "All modules explored to depth 3-5 with range end points, subnormals, +-MAX, NaN/inf; all 256^3 MIDI byte triples from 5 states; convert over f32 bit patterns (thorough: all 2^32 x 4 scales); envelope termination over the C02 plane with a 2^25-tick watchdog. Built with overflow-checks and debug-assertions for the subject and its dependencies.",
+    "Single calls cannot hang (no unbounded loops); hang = envelope never finishing.", "4 (C17)")
+add("C18", "exhaustive enumeration: 16 channels x 128 controllers x 128 values, all 16384 bend values, + BFS to fixpoint",
+    "Complete finite spaces of controller and pitch-bend messages on listened and foreign channels from two start states against the routing table; BFS to fixpoint over controller/bend/reset/note histories.",
+    "Complete for single messages; histories over value menus.", "4 (MIDI)")
+add("C19", "exhaustive sweep of 10,000,001 chromatic inputs + record oracle on every conversion of the C09 exploration",
+    "Record consistency (stairstep = note/12, sum reproduces input within 2 ulps, fraction ranges) on every microvolt of the chromatic scale without history, out-of-range inputs on all scales, and every conversion of the hysteresis exploration.",
+    "2 ulps taken at the largest operand magnitude; chromatic fraction interval widened by the 10 uV tie window.", "4 (Quantizer)")
+add("C20", "exhaustive enumeration of all 2^32 f32 bit patterns and all 256 byte values",
+    "Both float conversions over all 2^32 patterns in both tiers; twin envelopes over all gate/tick scripts to depth 8/11; Note::from over all 256 values with all 2-edit histories; MonoMidiReceiver::new over all 256 channel bytes with traffic on all 16 channels.",
+    "Complete for the conversions.", "4 (C20)")
